@@ -111,6 +111,7 @@ def run_case(ctx, iso3, options, title):
     if len(cap.opt) != len(cap.interp):
         ctx.fail("rounds-and-results-do-not-pair-up", "%d LPs, %d interpreted results" % (len(cap.opt), len(cap.interp)), case)
     for k, (lp, (t, interp)) in enumerate(zip(cap.opt, cap.interp)):
+        ctx.count()      # one evaluation = one round's result compared with its allocation and its saved table
         check_round(ctx, iso3, options, k, lp, t, interp, case)
     final = r["result"]
     if cap.interp and final is not cap.interp[-1][1]:
@@ -125,13 +126,12 @@ def shard(ctx):
     def body(case):
         iso3, options = case
         run_case(ctx, iso3, options, "c04 s%d n%d" % (ctx.shard, ctx.evaluations))
-    drive(ctx, case_strategy(), body, 110 if thorough else 7, shrink=False, tag="runs")
+    drive(ctx, case_strategy(), body, 110 if thorough else 7, shrink=False, tag="runs", count=False)
     if thorough:
         for i, iso in enumerate(model.iso3_list()):
             if i % ctx.nshards != ctx.shard:
                 continue
             for b, bundle in enumerate(BUNDLES[:6]):
-                ctx.count()
                 try:
                     run_case(ctx, iso, dict(model.BASELINE_COUNTRY, **bundle), "c04e %s %d" % (iso, b))
                 except Violation as v:
